@@ -299,6 +299,13 @@ class ExcFlow:
                     out.add(rr)
                     vals.remove(v)
                     continue
+                # `exc_class(message)` where exc_class is a local that holds a class (the parameter of an inlined error factory)
+                if isinstance(v.func, ast.Name) and v.func.id != name and not v.func.id[:1].isupper() and _depth < 4:
+                    sub = self._table_classes(f, v.func.id, _depth + 1)
+                    if sub:
+                        out |= sub
+                        vals.remove(v)
+                        continue
             if isinstance(v, ast.Constant) and v.value is None:
                 vals.remove(v)  # the initial `result = None` of an inlined helper
                 continue
